@@ -31,7 +31,7 @@ SUFFIXES = ["", "#", ["a"], ["0"], ["~", "/"], ["é", ""], ["m~n", "a/b", "10"]]
 def plan(tier, seed):
     specs = [{"kind": "exhaustive", "first": t} for t in ALPHABET] + [{"kind": "exhaustive", "first": None}, {"kind": "syntax"}, {"kind": "backslash"}]
     for _ in range(4 if tier == "quick" else 14):
-        specs.append({"kind": "depth3", "n": 6000 if tier == "quick" else 40000})
+        specs.append({"kind": "depth3", "n": 6000 if tier == "quick" else 200000})
     return specs
 
 
